@@ -374,7 +374,7 @@ func (e *env) system(rows []row) error {
 	rng := rand.New(rand.NewSource(c.Seed + 16))
 	nLayouts, nPreds := 6, 60
 	if !c.Quick() {
-		nLayouts, nPreds = 40, 400
+		nLayouts, nPreds = 24, 300
 	}
 	for li := 0; li < nLayouts; li++ {
 		l := layout{Name: fmt.Sprintf("s%d", li), Dir: []string{"asc", "desc"}[li%2],
